@@ -29,7 +29,7 @@ import (
 func TestVerifC01DoH(t *testing.T) {
 	rep := report.New("C01 DoH upstream replies")
 	defer rep.Write()
-	bodies := []string{"valid", "empty", "garbage", "cut", "header-only", "70000-zeros", "valid+trailing", "pointer-loop"}
+	bodies := []string{"valid", "empty", "garbage", "cut", "header-only", "70000-zeros", "valid+trailing", "pointer-loop", "valid-9000-octets", "valid-20000-octets"}
 	framings := []string{"content-length", "no-length(chunked / h2 data frames)", "gzip", "content-length-too-big", "declared-70000", "declared-2^62(http/1.1)", "declared-2^31(http/1.1)"}
 	statuses := []int{200, 500, 204}
 	protos := []string{"h2", "http/1.1"}
@@ -76,6 +76,19 @@ func TestVerifC01DoH(t *testing.T) {
 			b = append(append([]byte(nil), good...), 9, 9, 9)
 		case "pointer-loop":
 			b = []byte{0, 1, 0x81, 0x80, 0, 1, 0, 0, 0, 0, 0, 0, 0xC0, 0x0C, 0, 1, 0, 1}
+		case "valid-9000-octets", "valid-20000-octets":
+			// a large but honest reply (buffers grow while it is read; what is left of them must not reach the next exchange)
+			if m, err := refdns.Decode(q); err == nil {
+				r := env.Answer(m, 7, 60)
+				n := 40
+				if bd == "valid-20000-octets" {
+					n = 90
+				}
+				for i := 0; i < n; i++ {
+					r.Ar = append(r.Ar, refdns.TXT(m.Q[0].Name, 60, 220, byte('a'+i%26)))
+				}
+				b = r.Encode(false)
+			}
 		}
 		w.Header().Set("Content-Type", "application/dns-message")
 		switch fr {
@@ -181,7 +194,7 @@ func TestVerifC01DoH(t *testing.T) {
 					rep.Eval(desc)
 					s, ok, xerr := exchange()
 					// a complete well-formed message followed by more octets (trailing bytes, zero padding up to the declared length) decodes
-					wellFormed := (bd == "valid" || bd == "valid+trailing") && fr != "content-length-too-big" && !strings.HasSuffix(fr, "(http/1.1)")
+					wellFormed := (bd == "valid" || bd == "valid+trailing" || strings.HasPrefix(bd, "valid-")) && fr != "content-length-too-big" && !strings.HasSuffix(fr, "(http/1.1)")
 					if ok && (s != 7 || !wellFormed || st != 200) {
 						rep.Violate("C01:doh-reply:accepted-bad-reply", fmt.Sprintf("the exchange returned a message (serial %d) for %s", s, desc), nil)
 					}
@@ -192,12 +205,18 @@ func TestVerifC01DoH(t *testing.T) {
 					body, framing, status = "valid", "content-length", 200
 					mu.Unlock()
 					good := false
-					for try := 0; try < 3 && !good; try++ {
+					// (after a reply that broke the HTTP framing the first exchange may still meet the connection the server has cut; after an
+					// honest reply nothing is wrong with the connection: the very next exchange must succeed)
+					tries := 3
+					if wellFormed && st == 200 && ok {
+						tries = 1
+					}
+					for try := 0; try < tries && !good; try++ {
 						s2, ok2, _ := exchange()
 						good = ok2 && s2 == 7
 					}
 					if !good {
-						rep.Violate("C01:doh-reply:stopped-serving", "after "+desc+" an ordinary exchange with the same upstream fails (3 attempts)", nil)
+						rep.Violate("C01:doh-reply:stopped-serving", "after "+desc+" an ordinary exchange with the same upstream fails"+fmt.Sprintf(" (%d attempt(s))", tries), nil)
 					}
 				}
 			}
